@@ -17,7 +17,7 @@ RULE = ("README-style workflows: a random integer objective on 2-4 variables plu
         "solve_bruteforce on the constrained model; each of to_pubo(2..3) / to_qubo / to_quso / to_puso(2..3) solved by brute "
         "force with all_solutions and mapped back through convert_solution and remove_ancilla_from_solution; non-trivial = the "
         "constraints exclude at least one assignment and at least one ancilla is used; distinct by canonical JSON")
-THEOREMS = "C08_abstract C08_one_constraint C08_sequence C08_sequence_spin C08_reduced C08_sequence_reduced"
+THEOREMS = "C08_abstract C08_one_constraint C08_sequence C08_sequence_spin C08_reduced C08_sequence_reduced C08_sequence_mixed C08_sequence_mixed_reduced"
 MODELLED = "as C01/C02/C03/C06/C09; sizes are kept at <= 10 variables including ancillas so that the model side stays cheap"
 
 HOLDS = c02.HOLDS
